@@ -9,6 +9,7 @@ import (
 	gomavlib "github.com/bluenviron/gomavlib/v3"
 	"github.com/bluenviron/gomavlib/v3/pkg/dialects/ardupilotmega"
 	"github.com/bluenviron/gomavlib/v3/pkg/dialects/common"
+	"github.com/bluenviron/gomavlib/v3/pkg/message"
 	"pgregory.net/rapid"
 
 	"verifharness/evid"
@@ -144,6 +145,77 @@ func TestC13ChannelThatComesBackStillWrites(t *testing.T) {
 		rec.Case(true, evid.HashS(desc), cls...)
 		if rec.WantSample("back") {
 			rec.Sample("back", desc)
+		}
+	})
+}
+
+// TestC13SameValueWrittenAgain: what the application writes ten times goes out ten times - also when it hands over the
+// very same frame or raw message value each time (a beacon, a keep-alive built once) and the link is busy: every write
+// below the backlog bound is an item of its own.
+func TestC13SameValueWrittenAgain(t *testing.T) {
+	rec := evid.New(t, "C13", "2 custom transports, the first one blocked; the same frame value (WriteFrameAll) or the same raw message value (WriteMessageAll) is written 3..40 times (below the 64-item backlog), then the transport recovers: both links carry as many frames as were written, identical for the frame, with consecutive sequence numbers for the message; non-trivial = always; distinct by hash of the parameters")
+	rec.Require("same-frame-value", "same-raw-message-value")
+	evid.Check(t, rec, evid.N(40, 200), func(t *rapid.T) {
+		drawNodeInit(t)
+		times := rapid.IntRange(3, 40).Draw(t, "times")
+		asFrame := rapid.Bool().Draw(t, "as_frame")
+		desc := fmt.Sprintf("times=%d sameFrameValue=%v", times, asFrame)
+		err := watchdog(scenarioLimit, func() error {
+			pipes := []*sim.Pipe{sim.NewPipe(), sim.NewPipe()}
+			n := &gomavlib.Node{Endpoints: []gomavlib.EndpointConf{gomavlib.EndpointCustom{ReadWriteCloser: pipes[0]}, gomavlib.EndpointCustom{ReadWriteCloser: pipes[1]}},
+				Dialect: ardupilotmega.Dialect, OutVersion: gomavlib.V2, OutSystemID: nodeSys, HeartbeatDisable: true}
+			if err := initNode(&n); err != nil {
+				return fmt.Errorf("BROKEN: %v", err)
+			}
+			r := sim.StartRecorder(n, sim.Pacing{Kind: "fast"}, nil)
+			defer func() {
+				pipes[0].UnblockWrites()
+				closeNode(n, bound) //nolint:errcheck
+				r.WaitClosed(bound)
+			}()
+			if _, ok := openCustom(n, r, pipes); !ok {
+				return fmt.Errorf("BROKEN: channels did not open")
+			}
+			pipes[0].BlockWrites()
+			fr, _ := fwdFrame(2, 5, true, true)
+			raw := &message.MessageRaw{ID: debugMsgID, Payload: lay(debugMsgID).Encode(&common.MessageDebug{TimeBootMs: 77, Ind: 1, Value: 1.5}, true)}
+			for i := 0; i < times; i++ {
+				var err error
+				if asFrame {
+					err = n.WriteFrameAll(fr)
+				} else {
+					err = n.WriteMessageAll(raw)
+				}
+				if err != nil {
+					return fmt.Errorf("write refused: %v", err)
+				}
+			}
+			if !pipes[1].WaitWrites(times, bound) {
+				return fmt.Errorf("the healthy link carries %d of the %d writes", pipes[1].NumWrites(), times)
+			}
+			pipes[0].UnblockWrites()
+			if !pipes[0].WaitWrites(times, bound) {
+				return fmt.Errorf("the same value was written %d times while the link was busy (64 items fit its backlog); after the link recovered %d frames reached it", times, pipes[0].NumWrites())
+			}
+			sleepShort()
+			for i, p := range pipes {
+				if p.NumWrites() != times {
+					return fmt.Errorf("link %d carries %d frames for %d writes", i, p.NumWrites(), times)
+				}
+			}
+			return nil
+		})
+		if err != nil {
+			evid.ReplayNote("C13", "TestC13SameValueWrittenAgain", desc+"\n"+err.Error())
+			t.Fatalf("%s\n%v", desc, err)
+		}
+		cls := []string{"same-raw-message-value"}
+		if asFrame {
+			cls = []string{"same-frame-value"}
+		}
+		rec.Case(true, evid.HashS(desc), cls...)
+		if rec.WantSample("same-value") {
+			rec.Sample("same-value", desc)
 		}
 	})
 }
